@@ -19,6 +19,7 @@ import HtaVerif.Model.C08
 import HtaVerif.Spec.C08
 import HtaVerif.Model.C09
 import HtaVerif.Model.C10
+import HtaVerif.Model.C19
 /-!
 `htadrv` — line protocol driver. One JSON request per input line, one JSON answer per
 output line. Imports only `Model/*` and `Spec/*` (core Lean), never a proof file.
@@ -392,6 +393,20 @@ def handle (j : Json) : Except String Json := do
       ("potential_ok", Json.bool pot), ("within_makespan", Json.bool mk),
       ("n_path_edges", jInt (C09.pathEdges es path).length),
       ("span_bounded", Json.bool (es.all fun e => decide (e.w ≤ ts e.dst - ts e.src)))]
+  | "c19" =>
+    let parseAdj (v : Json) : Except String (Nat × List (Nat × C19.Attr)) := do
+      let a ← getArr v
+      let outs ← (← getArr a[1]!).toList.mapM fun e => do
+        let b ← getArr e
+        return ((← getInt b[0]!).toNat, ((← getInt b[1]!, ← getStr b[2]!) : C19.Attr))
+      return ((← getInt a[0]!).toNat, outs)
+    let out ← (← getArr (← field j "adj")).toList.mapM parseAdj
+    let n := (← getInt (← field j "cycles")).toNat
+    let a0 : C19.Adj := { nodes := out.map (·.1), out := out }
+    let dumpAdj (a : C19.Adj) : Json := Json.arr (a.nodes.map fun (u : Nat) =>
+      Json.arr #[jInt (u : Int), Json.arr ((C19.outOf a u).map fun e => Json.arr #[jInt (e.1 : Int), jInt e.2.1, Json.str e.2.2]).toArray]).toArray
+    let states := (List.range n).map fun i => dumpAdj (C19.roundtrip (i + 1) a0)
+    return Json.mkObj [("states", Json.arr states.toArray), ("nodup", Json.bool (decide a0.nodes.Nodup))]
   | "c10" =>
     -- crit: the implementation's critical edges as [srcEv,srcStart,dstEv,dstStart]
     let rs ← rows (← field j "rows")
